@@ -25,6 +25,72 @@ def scenarios(prop, lentil, rng):
     out = []
     add = lambda name, fn: out.append((name, fn))
 
+    if prop in ('C03', 'C04'):
+        def _three_segments(n=64):
+            r, c = lentil.helper.mesh((n, n))
+            circ = (r ** 2 + c ** 2 <= 28 ** 2)
+            masks = np.array([circ & (c < -3), circ & (c >= -3) & (r < 5), circ & (c >= -3) & (r >= 5)]).astype(int)
+            return r, c, circ, masks
+
+        def refit_twice():
+            r, c, circ, masks = _three_segments()
+            dx = 1e-3
+            opd1 = sum(m * (a * c * dx - b * r * dx) for m, (a, b) in zip(masks, [(3e-6, -1e-6), (-2e-6, 4e-6), (1e-6, 2.5e-6)]))
+            opd2 = sum(m * (a * c * dx - b * r * dx) for m, (a, b) in zip(masks, [(-1e-6, 2e-6), (2e-6, 1e-6), (-3e-6, -1.5e-6)]))
+            kw = dict(pixelscale=5e-6, shape=96, oversample=2)
+            p = lentil.Pupil(amplitude=circ.astype(float), opd=opd1.copy(), mask=masks, pixelscale=dx, focal_length=10.0)
+            p.fit_tilt(inplace=True)
+            p.opd = p.opd + opd2
+            p.fit_tilt(inplace=True)
+            got = lentil.propagate_dft(lentil.Wavefront(650e-9) * p, **kw).field
+            ref = lentil.propagate_dft(lentil.Wavefront(650e-9) * lentil.Pupil(amplitude=circ.astype(float), opd=opd1 + opd2, mask=circ.astype(int),
+                                                                              pixelscale=dx, focal_length=10.0), **kw).field
+            core = np.s_[40:-40, 40:-40]
+            err = float(np.abs(got - ref)[core].max() / np.abs(ref).max())
+            return err < 1e-8, {'field error': err}
+        add('a segmented plane fitted, given more OPD, fitted again - against the global mask with the whole OPD', refit_twice)
+
+        def nearly_equal_segment_tilts():
+            r, c, circ, masks = _three_segments()
+            dx = 1e-3
+            worst = {}
+            for label, tilts in (('different integer parts', [(11.8, 5.2), (12.3, 5.4), (12.1, 4.8)]),
+                                 ('a few 1e-4 samples apart', [(3.3137, -1.2521), (3.3141, -1.2524), (3.3134, -1.2517)]),
+                                 ('same nearest integer', [(7.45, 2.55), (7.55, 2.45), (7.51, 2.49)])):
+                opd = sum(m * pst for m, pst in zip(masks, [0.0, 120e-9, -75e-9])) + \
+                    sum(m * (a / 4e6 * c * dx - b / 4e6 * r * dx) for m, (a, b) in zip(masks, tilts))
+                kw = dict(pixelscale=5e-6, shape=128, prop_shape=64, oversample=2)
+                ref = lentil.propagate_dft(lentil.Wavefront(650e-9) * lentil.Pupil(amplitude=circ.astype(float), opd=opd, mask=circ.astype(int),
+                                                                                  pixelscale=dx, focal_length=10.0), **kw)
+                ps = lentil.Pupil(amplitude=circ.astype(float), opd=opd, mask=masks, pixelscale=dx, focal_length=10.0).fit_tilt()
+                ws = lentil.propagate_dft(lentil.Wavefront(650e-9) * ps, **kw)
+                core = np.s_[128 - 44:128 + 44, 128 - 44:128 + 44]
+                fs, fr = ws.field, ref.field
+                worst[label] = max(float(np.abs(fs - fr)[core].max() / np.abs(fr).max()),
+                                   float(np.abs(ws.intensity - np.abs(fs) ** 2).max() / np.abs(fr).max() ** 2))
+            return max(worst.values()) < 1e-8, worst
+        add('segments with a common pointing offset and small tilts of their own (fitted), against the global mask', nearly_equal_segment_tilts)
+
+    if prop in ('C01', 'C02'):
+        def long_axis_transform():
+            Fm = lentil.fourier
+            m, M = 1030, 1040                     # (kernels of more than 2**20 elements on the long axis)
+            f = rng.normal(size=(m, 3)) + 1j * rng.normal(size=(m, 3))
+            al = (1 / 1100.3, 1 / 5.0)
+            got = np.asarray(Fm.dft2(f, al, shape=(M, 3), unitary=False))
+            LD = np.longdouble
+            x = np.arange(m, dtype=LD) - m // 2
+            y = np.arange(3, dtype=LD) - 1
+            worst = 0.0
+            for u_, v_ in ((0, 0), (M - 1, 2), (M // 2, 1), (17, 0), (M // 2 + 301, 2)):
+                ph = LD(al[0]) * x[:, None] * LD(u_ - M // 2) + LD(al[1]) * y[None, :] * LD(v_ - 1)
+                ph = ph - np.floor(ph)
+                ref = np.sum(f.astype(np.clongdouble) * np.exp(-2j * np.pi * ph))
+                worst = max(worst, float(abs(got[u_, v_] - ref)))
+            sc = float(np.sum(np.abs(f)))
+            return worst <= 1e-11 * sc, {'worst/sum|f|': worst / sc}
+        add('a transform with more than a million kernel elements on one axis keeps double precision', long_axis_transform)
+
     if prop in ('C04', 'C10'):
         def disp_history():
             mk = lambda: lentil.DispersiveTilt(trace=[2.0, 1.0, 0.0], dispersion=[5e-5, 1e-6, 650e-9])
